@@ -74,6 +74,11 @@ CHECKS = {
             "subcomponent permutations, property insertion order and name case, and distinguishes every single perturbation in both directions; deepcopy/pickle/parse copies are equal and serialise identically; "
             "550 564 ordered pairs agree with the reference and are symmetric; zone-carrying calendars under both providers.",
             "trusted: canon()/preorder() reference in checks/c20.py; pickle protocols >= 2; one open finding (pytz custom zones not picklable) matched by exception signature", "3/C20"),
+    "C02": ("bounded-exhaustive enumeration of API-built trees (every RFC 5545 property name x value menus x parameter maps x containers x build paths x providers; all insertion orders of repeated values; all call sequences up to depth 3/4) round-tripped through the real serialiser and parser vs. an RFC property table",
+            "46 property names with their documented Python value kinds (text with delimiters, int, geo, recur, offsets, date/floating/UTC/zoned date-times, durations, periods, date and period lists), 5 parameter maps, RFC containers + an unknown component, "
+            "add / item assignment / property setters, both providers: after to_ical+from_ical nesting, names, parameters (+ only VALUE/TZID), decoded values and the RFC value class agree, and the emitted line satisfies the VALUE / TZID tag clause; repeated values keep their order; "
+            "all call sequences of length <=3 (thorough 4) over a 12-call menu equal a plain tree model.",
+            "trusted: refmodel/rfc_props.py (written from RFC 5545 3.7/3.8), rfc_text strict splitter, rfc_values regexes; decoded() not used as observer; one open finding (mixed-zone date lists) matched by input kind + exact observation", "3/C02"),
 }
 REASON_PENDING = "check under construction in this session; not claimed until it has been built, silenced on the unchanged tree and shown to detect a seeded change"
 ALL = [f"C{i:02d}" for i in range(1, 21)]
